@@ -67,6 +67,17 @@ fn files_basic() -> Vec<FileSpec> {
     ]
 }
 
+/// `files_basic` plus lossy sound data in several sectors: sector checksums cover the stored (ADPCM) sectors,
+/// so they verify; a content digest in the attributes is taken over the data as added and cannot match what a
+/// lossy file decodes to (StormLib behaves the same), which is why these files are kept out of the attribute kinds
+fn files_with_lossy() -> Vec<FileSpec> {
+    let mut v = files_basic();
+    let f = |name: &str, class, halves, delta, method| FileSpec { name: name.to_string(), class, len: LenSpec { halves, delta }, seed: 9, method, enc: Enc::None, locale: 0 };
+    v.push(f("snd\\adpcm_multi.wav", ContentClass::LowEntropy, 7, 10, M_ADPCM_MONO));
+    v.push(f("snd\\adpcm_stereo_z.wav", ContentClass::Period, 5, 0, M_ADPCM_STEREO | M_ZLIB));
+    v
+}
+
 fn files_many(n: usize, seed: u32) -> Vec<FileSpec> {
     (0..n)
         .map(|i| FileSpec {
@@ -104,7 +115,7 @@ fn kinds() -> Vec<KindDef> {
         locale: 0,
     });
     vec![
-        KindDef { name: "sector-crc", spec: base(1, Attrs::CrcsThenNone, true, files_basic()), signed: false, protects: &["file-data"], prefix: 0, intact_only: false },
+        KindDef { name: "sector-crc", spec: base(1, Attrs::CrcsThenNone, true, files_with_lossy()), signed: false, protects: &["file-data"], prefix: 0, intact_only: false },
         KindDef { name: "attr-crc32", spec: base(1, Attrs::Crc32, false, files_basic()), signed: false, protects: &["file-data", "sector-offset-table", "attributes-file"], prefix: 0, intact_only: false },
         KindDef { name: "attr-full-md5", spec: base(2, Attrs::Full, false, files_basic()), signed: false, protects: &["file-data", "sector-offset-table", "attributes-file"], prefix: 0, intact_only: false },
         // files of 9..12 identical incompressible sectors: the data sectors are stored raw, the checksum sector (all
@@ -204,9 +215,18 @@ fn build(k: &KindDef, dir: &std::path::Path) -> Result<Built, String> {
     };
     let mut contents = vec![];
     for (i, f) in k.spec.files.iter().enumerate() {
-        let c = k.spec.content(i);
+        let mut c = k.spec.content(i);
         let class = if f.name == "(signature)" { "signature-file" } else { "file-data" };
         add_file(&mut ar, &f.name, class, Some(i), c.len())?;
+        if f.method & (M_ADPCM_MONO | M_ADPCM_STEREO) != 0 {
+            // lossy: "the content" of such a file is what the intact archive decodes to (same length as added);
+            // an intact file that does not read at all is reported by the intact judgement
+            if let Ok(d) = ar.read_file(&f.name) {
+                if d.len() == c.len() {
+                    c = d;
+                }
+            }
+        }
         contents.push(c);
     }
     // where the checksum sectors are (read from each file's sector offset table, decrypted with the
